@@ -49,6 +49,9 @@ type MorxChainSubtable struct {
 
 // check and return the subtable length
 func (mc *MorxChainSubtable) parseEnd(src []byte, _ int) (int, error) {
+	if mc.length < 12 { // the length includes the header: a smaller value would not advance in the chain
+		return 0, fmt.Errorf("invalid morx subtable length %d", mc.length)
+	}
 	if L := len(src); L < int(mc.length) {
 		return 0, fmt.Errorf("EOF: expected length: %d, got %d", mc.length, L)
 	}
